@@ -64,6 +64,39 @@ def check(run):
         p = [[run.rng.choice(allops) for _ in range(run.rng.randint(1, 2) if nt < 8 else 1)] for _ in range(nt)]
         rnd.append(program([run.rng.choice(allops) for _ in range(run.rng.randint(0, 3))], p, "random", n=25 if q else 60,
                            seed=run.seed * 1000 + i, keys=ks))
+    # one goroutine, a hundred values: histories through promotions, expunged entries and dirty-only values of a LARGE set (size-
+    # dependent shortcuts), every value looked up at the end
+    bigp = []
+    for i in range(6 if q else 60):
+        N = run.rng.choice([70, 80, 100])
+        ks = list(range(1, N + 1))
+        h = [call("Add", k) for k in ks[: N - 12]] + [call("Len")]
+        gone = run.rng.sample(ks[: N - 12], run.rng.randint(1, 8))
+        h += [call("Remove", k) for k in gone]                       # cleared entries in the read map
+        fresh = ks[N - 12: N - 12 + run.rng.randint(1, 8)]
+        h += [call("Add", k) for k in fresh]                          # a new dirty map: cleared entries are expunged
+        h += [call("Remove", k) for k in run.rng.sample(fresh, run.rng.randint(0, len(fresh)))]
+        h += [call("Has", k) for k in run.rng.sample(ks, 10)] + [call("Remove", run.rng.choice(ks)), call("Add", run.rng.choice(gone)), call("Len")]
+        for j in range(run.rng.randint(0, 30)):
+            h.append(call(run.rng.choice(["Add", "Remove", "Has", "Remove", "Add"]), run.rng.choice(ks)) if run.rng.random() < 0.9 else call("Len"))
+        bigp.append(program(h, [], "schedule", keys=ks))
+    # ... and systematically: g expunged entries in the read map, f values that live in the dirty map only, removed one by one with
+    # every remaining one looked up after each removal (every relation between the two counts occurs)
+    for N in ((70,) if q else (64, 70, 130)):
+        for g in (1, 2, 3):
+            for f in (g, g + 1, g + 3):
+                ks = list(range(1, N + f + 1))
+                h = [call("Add", k) for k in ks[:N]] + [call("Len")] + [call("Remove", k) for k in ks[:g]]
+                fresh = ks[N:N + f]
+                h += [call("Add", k) for k in fresh]
+                for i, k in enumerate(fresh):
+                    h += [call("Remove", k)] + [call("Has", x) for x in fresh[i:]] + [call("Has", ks[g]), call("Has", ks[0])]
+                    if i == f - g:
+                        h += [call("Remove", fresh[-1]), call("Add", fresh[-1])]
+                bigp.append(program(h, [], "schedule", keys=ks))
+    hb, _ = run_programs(run, "syncset", bigp)
+    bsegs, bsrcs = history_segments(hb)
+    validate(run, "syncmap", "SetAbsTrace", dict(NK=140, NT=8), bsegs, [], plans=replay_plans(bsrcs), label="large sets")
     h1, _ = run_programs(run, "syncset", conc)
     h2, _ = run_programs(run, "syncset", rnd)
     _, races = run_race(run, "syncset-stress", [dict(threads=8, ops=150, keys=3, seed=run.seed, rounds=5 if q else 50)])
